@@ -98,6 +98,14 @@ impl AttributeParser {
     }
 
     fn parse_group(&mut self, name: Ident, group: TokenStream) -> Nested {
+        // Consume the separating comma, so that arguments following a
+        // parenthesised one are parsed on their own.
+        let tail = self.collect_tail(Empty);
+
+        if !tail.is_empty() {
+            return Nested::Unexpected(tail);
+        }
+
         Nested::Named(name, NestedValue::Group(group))
     }
 
